@@ -46,6 +46,7 @@ func (p *cellPool) get(sz int) []Cell {
 		if len(c) == sz {
 			p.cells[i] = nil
 			p.exps[i] = 0
+			verifPoolCells(c)
 			return c
 		}
 	}
@@ -87,6 +88,7 @@ func (p *valuePool) get(sz int) []Value {
 		if len(v) == sz {
 			p.values[i] = nil
 			p.exps[i] = 0
+			verifPoolValues(v)
 			return v
 		}
 	}
